@@ -40,6 +40,9 @@ type pump struct {
 	gen  func(n int) []byte // about n bytes
 }
 
+// step horizon for one call: generous and linear in the input length (the known quadratic AMF0 case needs 2.2e8 at 64 KiB)
+func stepLimitFor(n int) int64 { return 5_000_000 + 20_000*int64(n) }
+
 var stepLimit int64 = 400_000_000
 
 type outcome struct {
@@ -57,8 +60,9 @@ type c07case struct {
 }
 
 type engine struct {
-	c   *hl.Ctx
-	idx int
+	c      *hl.Ctx
+	idx    int
+	stalls map[string]int // per target: after 3 stalls the rest of the target's sweep is abandoned (each stall burns the whole horizon)
 }
 
 func fullHex(b []byte) string {
@@ -70,6 +74,13 @@ func fullHex(b []byte) string {
 
 func (e *engine) try(t *target, b []byte, note string) outcome {
 	c := e.c
+	if e.stalls == nil {
+		e.stalls = map[string]int{}
+	}
+	if e.stalls[t.name] >= 3 {
+		c.Cap("sweep of " + t.name + " abandoned after 3 stalls")
+		return outcome{}
+	}
 	c.Eval()
 	c.Case(t.name, c07case{Target: t.name, Hex: fullHex(b), Note: note})
 	o := runOneWithSite(t, b)
@@ -77,6 +88,7 @@ func (e *engine) try(t *target, b []byte, note string) outcome {
 	if o.panicked {
 		c.Violation("panic/"+t.name+"/"+o.site, fmt.Sprintf("decoder %s panicked in %s: %s; input (%d bytes, %s): %s", t.name, o.site, o.msg, len(b), note, hl.Hex(b)), c07case{Target: t.name, Hex: fullHex(b), Note: note})
 	} else if o.stalled {
+		e.stalls[t.name]++
 		c.Violation("stall/"+t.name, fmt.Sprintf("decoder %s exceeded the step horizon of %d instrumented steps on a %d-byte input (%s): %s", t.name, stepLimit, len(b), note, hl.Hex(b)), c07case{Target: t.name, Hex: fullHex(b), Note: note})
 	}
 	return o
@@ -85,6 +97,7 @@ func (e *engine) try(t *target, b []byte, note string) outcome {
 // runOneWithSite runs the decoder with the panic site captured at the panic itself.
 func runOneWithSite(t *target, b []byte) (o outcome) {
 	vstep.Reset()
+	stepLimit = stepLimitFor(len(b))
 	vstep.Limit = stepLimit
 	p, msg, st := false, "", ""
 	func() {
